@@ -14,10 +14,11 @@
 (declare-fun validN (Fp Fp Fp) Bool)
 (declare-fun ppbase (Int) G)           ; the base point a PrecompPoint table was built for (ghost, by object id)
 ; abelian group / module laws in the orientations the proofs use
-(assert (forall ((x G) (y G) (z G)) (! (= (g_add (g_add x y) z) (g_add x (g_add y z))) :pattern ((g_add (g_add x y) z)))))
-(assert (forall ((a Int) (b Int) (p G)) (! (= (g_add (g_smul a p) (g_smul b p)) (g_smul (+ a b) p)) :pattern ((g_add (g_smul a p) (g_smul b p))))))
-(assert (forall ((a Int) (p G)) (! (= (g_neg (g_smul a p)) (g_smul (- a) p)) :pattern ((g_neg (g_smul a p))))))
 (assert (forall ((x G)) (! (= (g_add x g_zero) x) :pattern ((g_add x g_zero)))))
 (assert (forall ((x G)) (! (= (g_add g_zero x) x) :pattern ((g_add g_zero x)))))
 (assert (forall ((p G)) (! (= (g_smul 0 p) g_zero) :pattern ((g_smul 0 p)))))
 (assert (forall ((p G)) (! (= (g_smul 1 p) p) :pattern ((g_smul 1 p)))))
+; validVec(P,o,n): the n points stored in row P from offset o (three Fp cells each) are all valid. Opaque predicate:
+; introduced for three-element vectors from its elements, otherwise passed along unchanged.
+(declare-fun validVec ((Array Int Fp) Int Int) Bool)
+(assert (forall ((P (Array Int Fp)) (o Int)) (! (=> (and (validP (select P (+ o 0)) (select P (+ o 1)) (select P (+ o 2))) (validP (select P (+ o 3)) (select P (+ o 4)) (select P (+ o 5))) (validP (select P (+ o 6)) (select P (+ o 7)) (select P (+ o 8)))) (validVec P o 3)) :pattern ((validVec P o 3)))))
